@@ -908,6 +908,19 @@ class EvalFuncVarClassInst(EvalFuncVar):
         self.ast_ctx = ast_ctx
         self.class_inst_weak = class_inst_weak
 
+    def __eq__(self, other):
+        """As with Python's bound methods: equal if the same function is bound to the same instance."""
+        if type(other) is not EvalFuncVarClassInst:
+            return NotImplemented
+        if self is other:
+            return True
+        inst = self.class_inst_weak()
+        return inst is not None and self.func is other.func and inst is other.class_inst_weak()
+
+    def __hash__(self):
+        """Hash that agrees with __eq__ and does not change when the instance goes away."""
+        return hash(self.func)
+
     async def call(self, ast_ctx, /, *args, **kwargs):
         """Call the EvalFunc function."""
         return await self.func.call(ast_ctx, self.class_inst_weak(), *args, **kwargs)
